@@ -5,7 +5,6 @@ CONSTANTS
   NS = 2
   Part = "num"
   MaxIdx = 3
-  Expand <- MCExpand
 INVARIANT LawCfgWellFormed
 INVARIANT LawWF
 INVARIANT LawStuck
